@@ -339,6 +339,16 @@ pub fn run_check(
 				own.push((v.clone(), o.clone()));
 			} else {
 				*agg.foreign.entry(format!("{} {}", v.property, v.oracle)).or_insert(0) += 1;
+				// debugging aid: keep the (unshrunk) replay of runs that tripped another property's oracle
+				if std::env::var("VERIF_FOREIGN_REPLAYS").is_ok() {
+					if let Some(r) = o.replay.as_ref() {
+						let name: String = v.oracle.chars().map(|c| if c.is_alphanumeric() { c } else { '_' }).collect();
+						let path = format!("{}/replays/foreign-{}-{}-{}.json", verif_dir, v.property, o.seed, name);
+						let doc = serde_json::json!({"property": v.property, "oracle": v.oracle, "message": v.message, "seed": o.seed, "replay": r});
+						let _ = std::fs::create_dir_all(format!("{}/replays", verif_dir));
+						let _ = std::fs::write(&path, serde_json::to_string_pretty(&doc).unwrap_or_default());
+					}
+				}
 			}
 		}
 	}
